@@ -14,7 +14,6 @@ import ast
 from ..core import algebra as A
 from ..core.source import norm
 from ..rules import step as S
-from ..rules import wrap as W
 from ..rules import model as M
 from ..rules import common as C
 from ..specs import utilr as SPEC
@@ -44,30 +43,22 @@ def check(repo, res, tier):
     C15._check_lookup(repo, res, cls_)
     C15._check_gridio(repo, res, cls_)
     # rexp
+    from ..rules import wrapx as WX
+    from ..core.libmodel import Rec
     f = repo.func(M.M_DISTN, "rexp")
     ps = f.params
-    spec = SPEC.FAMILIES["exp"]
     for seed in (None, 3):
         for n in (1, 2):
             tag = "rexp(seed=%s,n=%d)" % ("None" if seed is None else "int", n)
             try:
-                kind, val = W.run_scenario(f.node, {"seed": seed, ps[0]: n})
+                kind, val, _ = WX.run(f, {"seed": seed, ps[0]: n, ps[1]: A.sym(ps[1])})
             except A.Undecided as e:
                 res.undecided("R-WRAP", f, tag, str(e))
                 continue
-            cp = W.call_parts(val) if kind == "return" and val is not None else None
-            ok, why = False, "rexp returns %s" % (norm(val) if val is not None else kind)
-            if cp:
-                callee, pos, kw, sub = cp
-                bound = {}
-                for i, a in enumerate(pos):
-                    bound[spec["npsig"][i]] = a
-                bound.update(kw)
-                sc = bound.get("scale")
-                try:
-                    got = A.lift(A.Interp({p: A.sym(p) for p in ps}).ev(sc)) if sc is not None else None
-                    ok = got is not None and got == 1 / A.sym(ps[1]) and callee.endswith(".exponential")
-                    why = "exponential with scale = 1/rate" if ok else "draws %s(scale=%s): the mean waiting time is not 1/rate" % (callee, norm(sc))
-                except A.Undecided as e:
-                    why = "scale `%s` not normalisable (%s)" % (norm(sc), e)
+            ok, why = False, "rexp %s" % (("raises %s" % val) if kind == "raise" else "returns %r" % (val,))
+            if kind == "return" and isinstance(val, Rec) and val.owner is not None:
+                sc = val.args.get("scale", 1.0)
+                got = WX.rat(sc)
+                ok = val.callee == "exponential" and got is not None and got == 1 / A.sym(ps[1])
+                why = "exponential with scale = 1/rate" if ok else "draws %r: the mean waiting time is not 1/rate" % (val,)
             res.check(ok, "R-WRAP", f, tag, why, why, node=f.node)
